@@ -549,13 +549,17 @@ def getListBullet (c : Char) : Char :=
 /-- the scanner that `_parse_list_item` compiles: the list-item break rules with their first `3` replaced by the
 leading width when it is `< 3` (generated family `rt:listbreak[<rule>,<w>]`), and `list_item`
 (`_compile_list_item_pattern(bullet, leading_width)`, generated family `rt:list_item[<bullet><w>]`) inserted at
-index 1; every alternative is prefixed by `(?<=\n)` -/
+index 1; every alternative is prefixed by `(?<=\n)`.  `if 'fenced_directive' in block.specification:
+list_item_breaks.insert(1, "fenced_directive")`: with a custom-marker `FencedDirective` its rule is a break rule too
+(after `list_item` once that is inserted), and the replacement of the first `3` hits its fence-length quantifier
+`{3,}` (family `rt:listbreak[fenced_directive,<w>]`, regenerated from the live pattern). -/
 def listItemSc (cfg : MdCfg) (bullet : Char) (leadingWidth : Nat) : List (String × Rx) :=
   let w := min leadingWidth 3
   let br (n : String) : String × Rx := (n, cfg.rx ("rt:listbreak[" ++ n ++ "," ++ toString w ++ "]"))
   [br "thematic_break",
-   ("list_item", cfg.rx ("rt:list_item[" ++ String.singleton bullet ++ toString w ++ "]")),
-   br "fenced_code", br "atx_heading", br "block_quote", br "block_html", br "list"]
+   ("list_item", cfg.rx ("rt:list_item[" ++ String.singleton bullet ++ toString w ++ "]"))] ++
+  (if (cfg.blockSpec.lookup "fenced_directive").isSome then [br "fenced_directive"] else []) ++
+  [br "fenced_code", br "atx_heading", br "block_quote", br "block_html", br "list"]
 
 /-- `_compile_continue_width(text, leading_width)` -/
 def compileContinueWidth (cfg : MdCfg) (text : Str) (leadingWidth : Nat) : Str × Nat :=
